@@ -92,7 +92,7 @@ func now() int64 { return int64(time.Since(t0)) }
 func main() {
 	vf.Main("C06", "exploration",
 		"each case is one scenario drawn from the seed: blob size (0, 1, c-1, c, c+1, k*c+-1, ...), chunk size 1..64KiB, prefetch chunk size <,=,> chunk, cache kind, transport (plain | retryablehttp), "+
-			"registry kind (direct | redirect to CDN with expiring tokens | refuses multi-range), 1-32 goroutines, 2-5 hot regions and 7-11 phases (walk | solo | herd | mixed | verify, clean or one fault family). "+
+			"registry kind (direct | redirect to CDN with expiring tokens | refuses multi-range), 1-32 goroutines, 2-5 hot regions and 6-9 phases (partial walk, solo, 3-6 of herd | mixed | walk, verify; clean or one fault family). "+
 			"non-trivial = a scenario in which at least one byte-checked ReadAt of >=1 byte succeeded in a phase that fetched from the registry (2xx range GET logged) AND at least two of "+
 			"{multi-range request seen, non-plain personality answered (squash/whole/multipart-always/permuted), a read succeeded in a phase with delivered faults, herd phase answered with fewer GETs than readers (shared flight), "+
 			"cache fault injected, >=2 goroutines} hold; distinct by the scenario descriptor",
@@ -138,9 +138,13 @@ func body(r *vf.Run) {
 				Attribution: attribution,
 			})
 			r.Count(name+"_children", 1)
+			// exit code 66 is the race runtime's "races were reported" (they are accounted
+			// from the log); a periodically flushed partial result may exist although the
+			// child died later, so death is decided on the exit status
+			died := ex.Signal != "" || (ex.ExitCode != 0 && ex.ExitCode != 66) || !ex.Partial
 			if ex.TimedOut {
 				r.Inconclusive(name + " child watchdog")
-			} else if !ex.Partial {
+			} else if died {
 				// the child died: a crash of the code under test (no hostile input is used here)
 				key := "crash:" + name + "-child:" + crashSite(ex.Output, ex.Tail)
 				r.Violate(key, "the "+name+" child running C06 scenarios died: "+tailLines(ex.Tail, 30), map[string]any{"from": from, "to": to, "tail": ex.Tail})
